@@ -32,6 +32,7 @@ type Facts struct {
 	own *ownAnalysis
 
 	propReach map[string]map[*ssa.Function]bool
+	eff       *effectInfo
 }
 
 // NewFacts computes the shared facts.
